@@ -54,12 +54,83 @@ Definition gi1 : pinfo := (0, 0, [], 6).
 Definition gi2 : pinfo := (1, 0, [], 14).
 Example c18_grouping_nonvacuous :
   gm_ok gf /\ gids_nonneg ([v1] ++ [v2]) /\ views_agree T_glyf ([v1] ++ [v2]) /\
-  lists_tag ([v1] ++ [v2]) T_gvar = false /\
+  glyf_only ([v1] ++ [v2]) /\
   (exists F12 F1 F2, gk_core gf ([gi1] ++ [gi2]) ([v1] ++ [v2]) = inr F12 /\ gk_core gf [gi1] [v1] = inr F1 /\
                      gk_core F1 [gi2] [v2] = inr F2 /\ F2 = F12 /\ lookup F12 T_glyf = Some [1; 2; 7; 8; 9; 0]).
 Proof.
   split; [repeat constructor; cbn; lia|]. split; [repeat constructor; cbn; lia|].
-  split; [apply c18_views_agree_nonvacuous|]. split; [reflexivity|].
+  split; [apply c18_views_agree_nonvacuous|]. split; [repeat split|].
   eexists; eexists; eexists. split; [vm_compute; reflexivity|]. split; [vm_compute; reflexivity|].
   split; [vm_compute; reflexivity|]. split; reflexivity.
+Qed.
+
+(* partition: the hypotheses of c18_partition_independent hold for the two singleton calls above *)
+Example c18_partition_nonvacuous :
+  prefix_ok gf [[(gi1, v1)]; [(gi2, v2)]] /\
+  (exists Fs, gk_seq gf [[(gi1, v1)]; [(gi2, v2)]] = inr Fs /\ one_call gf [[(gi1, v1)]; [(gi2, v2)]] = inr Fs).
+Proof.
+  split.
+  - intros j Hj. destruct j as [|[|[|j]]]; [| | |cbn in Hj; lia].
+    + split; [intros items H; vm_compute in H; inversion H; subst; intros g d1 d2 []|eexists; vm_compute; reflexivity].
+    + split; [|eexists; vm_compute; reflexivity].
+      intros items H. vm_compute in H. inversion H; subst. unfold items_agree. cbn.
+      intros g d1 d2 [E1|[]] [E2|[]]; congruence.
+    + split; [apply c18_views_agree_nonvacuous | eexists; vm_compute; reflexivity].
+  - eexists. split; vm_compute; reflexivity.
+Qed.
+
+(* WITHOUT agreement grouping matters: one call keeps the first patch's data for a shared glyph, two calls
+   keep the second call's *)
+Example c18_grouping_refuted :
+  exists F12 F1 F2, gk_core gf [gi1; gi2] [w1; w2] = inr F12 /\ gk_core gf [gi1] [w1] = inr F1 /\
+                    gk_core F1 [gi2] [w2] = inr F2 /\ lookup F12 T_glyf <> lookup F2 T_glyf.
+Proof.
+  eexists; eexists; eexists. split; [vm_compute; reflexivity|]. split; [vm_compute; reflexivity|].
+  split; [vm_compute; reflexivity|]. vm_compute. discriminate.
+Qed.
+
+(* offset overflow: with a single available offset type whose maximum is exceeded the result is
+   SerializationError(OFFSET_OVERFLOW) (a toy type with max 4 stands for short loca's 131070) *)
+Example c18_overflow_nonvacuous :
+  let T := {| ot_width := 2; ot_div := 2; ot_bias := 0; ot_max := 4 |} in
+  dedup [v1] T_glyf = inr [(1, [7; 8])] /\
+  retained_total (keep_from 0 [1] 2) [0; 2; 2; 6] (6, 10) 0 = inr 6 /\
+  patch_offset_array_gen [v1] T_glyf [0; 2; 2; 6] [0; 2; 2; 6] [1; 2; 3; 4; 5; 6] T [T] (6, 10) 2 = inl (3, 2).
+Proof. cbn zeta. repeat split; vm_compute; reflexivity. Qed.
+
+(* CFF offSize widening: 250 bytes of charstrings with 1-byte offsets (max 254) + a 10-byte glyph -> offSize 2 *)
+Example c18_cff_widening_nonvacuous :
+  match patch_offset_array [{| gp_gids := [0]; gp_tables := [T_CFF]; gp_offs := [13; 23];
+                               gp_raw := repeat 0 13 ++ repeat 9 10 |}]
+          T_CFF [0; 0; 250] (repeat 7 250) (ot_cff 1) cff_types (2, 1) 1 with
+  | inr (T', os, ds) => ot_width T' = 2 /\ os = [0; 10; 260] /\ len ds = 260
+  | inl _ => False
+  end.
+Proof. vm_compute. repeat split; reflexivity. Qed.
+
+(* the CFF behaviour before /repo 6183e73 (finding F-C18-3): the ascending check skipped the last offset, so
+   a base INDEX [0; 6; 9; 2] (last offset below the previous one) was accepted and a non-ascending INDEX
+   came out: c18_offsets_ascending does NOT hold for the partial check *)
+Example c18_cff_last_offset_refuted :
+  exists T' os ds,
+    patch_offset_array_gen [{| gp_gids := [0]; gp_tables := [T_CFF]; gp_offs := [13; 14]; gp_raw := repeat 0 13 ++ [5] |}]
+      T_CFF [0; 1; 9; 2] (firstn 3 [0; 1; 9; 2]) (repeat 7 12) (ot_cff 1) cff_types (2, 1) 2 = inr (T', os, ds) /\
+    ascending os = false.
+Proof. eexists; eexists; eexists. split; vm_compute; reflexivity. Qed.
+
+(* finding F-C18-4 in the model: CFF offSize 1, glyphs of 200 and 50 bytes; P1: glyph 0 -> 10 bytes,
+   P2: glyph 1 -> 60 bytes.  One call: 70 bytes, 1-byte offsets.  P2 then P1: 260 bytes after P2 -> 2-byte
+   offsets, and the shrinking P1 afterwards never narrows them: same logical offsets and data, other width *)
+Definition wP1 := {| gp_gids := [0]; gp_tables := [T_CFF]; gp_offs := [13; 23]; gp_raw := repeat 0 13 ++ repeat 17 10 |}.
+Definition wP2 := {| gp_gids := [1]; gp_tables := [T_CFF]; gp_offs := [13; 73]; gp_raw := repeat 0 13 ++ repeat 34 60 |}.
+Example c18_width_order_independent_refuted :
+  let base := (repeat 161 200 ++ repeat 178 50) in
+  exists T12 os12 ds12 Ta osa dsa Tb osb dsb,
+    patch_offset_array [wP1; wP2] T_CFF [0; 200; 250] base (ot_cff 1) cff_types (2, 1) 1 = inr (T12, os12, ds12) /\
+    patch_offset_array [wP2] T_CFF [0; 200; 250] base (ot_cff 1) cff_types (2, 1) 1 = inr (Ta, osa, dsa) /\
+    patch_offset_array [wP1] T_CFF osa dsa Ta cff_types (2, 1) 1 = inr (Tb, osb, dsb) /\
+    os12 = osb /\ ds12 = dsb /\ ot_width T12 = 1 /\ ot_width Tb = 2.
+Proof.
+  cbn zeta. do 9 eexists. split; [vm_compute; reflexivity|]. split; [vm_compute; reflexivity|].
+  split; [vm_compute; reflexivity|]. repeat split; reflexivity.
 Qed.
